@@ -158,3 +158,35 @@ func TestC10_Sequence(t *testing.T) {
 }
 
 var _ = evid.B(nil)
+
+// TestC10_BatchOnWire: the cellblock form of mutations as it leaves a real region client inside
+// multi-requests (the C05 concurrent-senders scenario restricted to puts, a fifth of which are given
+// up by their callers right after being queued): every cell on the wire belongs to an action of its
+// frame and is the cell that action's put was built with.
+func TestC10_BatchOnWire(t *testing.T) {
+	theT = t
+	rec := evid.New("C10", "TestC10_BatchOnWire",
+		"rapid, virtual time: 1..8 goroutines queue 1..6 puts each (values of 0..300000 bytes; 1 in 5 given up by its caller "+
+			"right after being queued, before the batch is flushed) on ONE real region client with batching (queue size 2..100, "+
+			"flush 0..20 ms, snappy on/off); the byte stream is decoded with the independent codec. Oracle: every frame is "+
+			"well-formed, the announced cell counts add up to the cells in the frame's cellblock, every cell belongs to an "+
+			"action of its frame and is the cell that put was built with (row, qualifier, value), and every put that was not "+
+			"given up appears exactly once. Non-trivial = >= 2 senders and >= 1 put; distinct by case hash")
+	Drive(t, rec, true, func(t *rapid.T) c05bCase {
+		c := c05bGen(t)
+		if c.QueueSize == 1 {
+			c.QueueSize = 2
+		}
+		for i := range c.Senders {
+			for j := range c.Senders[i] {
+				op := &c.Senders[i][j]
+				if op.Kind != "put" {
+					op.Kind, op.ValueLen = "put", rapid.SampledFrom([]int{0, 1, 10, 300, 5000, 70000}).Draw(t, "vlen2")
+				}
+				op.SkipBatch = false
+				op.GiveUp = rapid.IntRange(0, 4).Draw(t, "giveup2") == 0
+			}
+		}
+		return c
+	}, c05bRun)
+}
